@@ -379,6 +379,30 @@ impl<'a> Instance<'a> {
                     let i = pop_i32!() as u32 as usize;
                     branch_to = Some(*t.get(i).unwrap_or(d));
                 }
+                Ins::BrOnNull(d) => match pop!() {
+                    Val::Ref(None) => branch_to = Some(*d),
+                    v => stack.push(v),
+                },
+                Ins::BrOnNonNull(d) => match pop!() {
+                    Val::Ref(None) => {}
+                    v => {
+                        stack.push(v);
+                        branch_to = Some(*d);
+                    }
+                },
+                Ins::BrOnCast(d, _, to_null) | Ins::BrOnCastFail(d, _, to_null) => {
+                    let v = pop!();
+                    let ok = match v {
+                        Val::Ref(None) => *to_null,
+                        Val::Ref(Some(_)) => true,
+                        other => return Err(Stop::Harness(format!("cast of {:?}", other))),
+                    };
+                    stack.push(v);
+                    let on_success = matches!(ins, Ins::BrOnCast(..));
+                    if ok == on_success {
+                        branch_to = Some(*d);
+                    }
+                }
                 Ins::Call(f) => {
                     let ty = m.func_type_of(*f).ok_or_else(|| Stop::Harness("call target".into()))?;
                     let (p, _) = self.sig(ty).map_err(Stop::Harness)?;
@@ -828,5 +852,31 @@ pub fn selftest() -> Result<(), String> {
           )))"#
     );
     expect("loop params", run(&w6, "f", vec![Val::I32(3)], vec![]), Ok(vec![Val::I32(0)]), vec![4, 4, 4])?;
+    // reference branches (abstract func heap type)
+    let w7 = format!(
+        r#"(module {imports} (elem declare func $g)
+        (func $g)
+        (func (export "f") (param i32) (result i32)
+          (block
+            (if (result funcref) (local.get 0) (then (ref.func $g)) (else (ref.null func)))
+            (br_on_null 0)
+            (drop)
+            (call $mark (i32.const 1)))
+          (block (result funcref)
+            (if (result funcref) (local.get 0) (then (ref.func $g)) (else (ref.null func)))
+            (br_on_cast_fail 0 funcref (ref func))
+            (call $mark (i32.const 2))
+            (drop) (ref.null func))
+          (drop)
+          (block (result funcref)
+            (if (result funcref) (local.get 0) (then (ref.func $g)) (else (ref.null func)))
+            (br_on_cast 0 funcref funcref)
+            (call $mark (i32.const 3))
+            (drop) (ref.null func))
+          (drop)
+          (i32.const 9)))"#
+    );
+    expect("br_on non-null", run(&w7, "f", vec![Val::I32(1)], vec![]), Ok(vec![Val::I32(9)]), vec![1, 2])?;
+    expect("br_on null", run(&w7, "f", vec![Val::I32(0)], vec![]), Ok(vec![Val::I32(9)]), vec![])?;
     Ok(())
 }
